@@ -1,6 +1,6 @@
 (* G09 — concrete histories: witnesses of the refuted statements and non-vacuity examples. *)
 From FwdLib Require Import Bytes.
-From G09 Require Import Tables H2Relay Ledger Check PairBasics PairWin SizeProofs FifoProofs PairFifo Spec Fidelity.
+From G09 Require Import Tables H2Relay Ledger Check PairBasics PairWin LedgerFormula SizeProofs FifoProofs PairFifo Spec Fidelity.
 Open Scope N_scope.
 
 (* a codec that decodes nothing (enough for histories without header blocks) *)
@@ -41,6 +41,13 @@ Lemma example_ok : all_ok (snd (urun example_hist)).
 Proof. vm_compute. repeat constructor. Qed.
 Lemma example_window : win_of (r_flow (toS (fst (urun example_hist)))) 1 = 8%Z.
 Proof. vm_compute. reflexivity. Qed.
+
+(* the three terms of the closed form on that history: latest INITIAL_WINDOW_SIZE 3, granted 30, received 25 *)
+Lemma example_formula :
+  latest_init Sv (Z.of_N default_initial_window) (snd (urun example_hist)) = 3%Z /\
+  sum_grants_on Sv 1 (snd (urun example_hist)) = 30%Z /\ sum_data_on Sv 1 (snd (urun example_hist)) = 25%Z /\
+  sum_conn_grants Sv (snd (urun example_hist)) = 1%Z /\ sum_data Sv (snd (urun example_hist)) = 25%Z.
+Proof. vm_compute. repeat split. Qed.
 
 (* a codec with a single header list: every block decodes to [a: b] and is encoded as one byte *)
 Definition one_dec (_ : unit) (_ : list N) : option (list field) * unit := (Some [(b "a", b "b", false)], tt).
